@@ -1,6 +1,7 @@
 (* Correspondence checkers for C01: each takes one case (input paired with what
    the implementation returned) and says whether the model agrees. *)
-From PG Require Import Lib.Str Gen.Secure Model.Selector.
+From Coq Require Import String.
+From PG Require Import Lib.Str Gen.Secure Model.Selector Model.Handlers.
 Local Open Scope N_scope.
 
 (* (selector, (isrequestsecure, (url isrequestsecure, slashnormalize))) *)
@@ -18,3 +19,15 @@ Definition chk_virtual (c : str * ((str * str) * (bool * str))) : bool :=
   let '(s, ((re, ar), (racc, rtgt))) := c in
   let '(mre, mar) := virtual_split s in
   str_eqb mre re && str_eqb mar ar && Bool.eqb (rewriter_accepts s) racc && str_eqb (rewriter_target s) rtgt.
+
+(* handler choice: ((tree, handler list, zip enabled), (selector, mime-is-html, compressed-ok, real choice)) *)
+Definition zip_pat (s : str) : bool := endswith s (lit ".zip") || endswith s (lit ".zip" ++ [10]).
+Definition choice_eqb (a : choice) (b : option (hid * str)) : bool :=
+  match a, b with
+  | NotFound, None => true
+  | Chosen h s, Some (h', s') => hid_eqb h h' && str_eqb s s'
+  | _, _ => false
+  end.
+Definition chk_choose (c : (tree * (list hid * bool)) * (str * (bool * (bool * option (hid * str))))) : bool :=
+  let '((root, (hs, ze)), (sel, (mh, (co, r)))) := c in
+  choice_eqb (get_handler root (fun _ => mh) (fun _ => co) ze zip_pat (fun _ => true) hs sel) r.
